@@ -146,6 +146,9 @@ def run_unit(repo, spec_path, workdir, rlimit=None, timeout=900, with_canary=Tru
     open(path, 'w').write(g.text)
     res.gen_path = path
     extra = ['--rlimit', str(rlimit)] if rlimit else []
+    extra += list(g.unit.verus_flags)
+    for fl in g.unit.verus_flags:
+        res.assumptions.append('verus flag %s%s' % (fl, ' (ghost/proof code is not lifetime-checked; exec code is unaffected)' if fl == '--no-lifetime' else ''))
     results = {}
     def job(key, p):
         results[key] = _run(p, workdir, extra, timeout)
